@@ -109,6 +109,11 @@ type flushRec struct {
 	Racing   bool   `json:"racing,omitempty"`
 	Fault    bool   `json:"fault,omitempty"` // the creation of the flush's table file was made to fail
 	Err      string `json:"err,omitempty"`
+	// JobFault: a file-system operation of this metadata / index flush, run inside a real flush job, was made to fail
+	// (Err names it); the node kept running
+	JobFault bool `json:"job_fault,omitempty"`
+	// Skipped: the flush job never touched this store (nothing to flush, or the job had given up before)
+	Skipped bool `json:"skipped,omitempty"`
 	// data flushes: sequence persisted according to the family state after the call
 	PersistSeq int64 `json:"persist_seq"`
 	Injected   int   `json:"injected"`   // arrivals executed at file-system operations of this step
@@ -130,6 +135,17 @@ type removalRec struct {
 	// Appended / Stored: appended sequence of the log and sequence stored with the family's flushed data at that time
 	Appended int64 `json:"appended"`
 	Stored   int64 `json:"stored"`
+}
+
+// jobRec is one flush job run through the real dataFlushChecker.doFlush.
+type jobRec struct {
+	Cycle     int    `json:"cycle"`
+	BeginTick int64  `json:"begin_tick"`
+	DoneTick  int64  `json:"done_tick"`
+	BeginImg  int    `json:"begin_img"`
+	DoneImg   int    `json:"done_img"`
+	Target    string `json:"target,omitempty"` // planned fault position (store/operation), "" = none
+	Fired     string `json:"fired,omitempty"`  // label of the operation that was made to fail
 }
 
 type imageRec struct {
@@ -154,7 +170,11 @@ type ledger struct {
 	Flushes  []flushRec   `json:"flushes"`
 	Acks     []ackRec     `json:"acks"`
 	Images   []imageRec   `json:"images"`
+	Jobs     []jobRec     `json:"jobs,omitempty"`
 	Config   string       `json:"config"`
+	// VerifyFrom: first image the parent has verified (fault-job histories: the images of the prelude are what the
+	// generated step histories cover)
+	VerifyFrom int `json:"verify_from,omitempty"`
 	// counters observed while driving
 	Counters map[string]int `json:"counters"`
 	Problems []string       `json:"problems"` // driver level failures (lindb call returned an error, ...)
